@@ -90,12 +90,18 @@ Section Hash.
     | _ => Err EMissing                               (* getattr raises KeyError *)
     end.
 
+  (* the mark of the producing task: TASK_ID + the task, unless the task is being hashed (it is on the stack: a task
+     that marked one of its own parameters as its output) - then nothing is written and the loop is flagged, which
+     the reference to the task does (detect_loop)                                                                 *)
+  Definition tmark (st' : list nat) (t : nat) (b : bytes) : bytes :=
+    match index_of t st' with Some _ => [] | None => TASK_ID :: b end.
+
   (* update(config, myself=True) then digest: HashComputer.compute without the cache test *)
   Definition hnode_with (rec : list nat -> value -> hres) (st : list nat) (n : nat) : hres :=
     do sg <- nsig cs h n;
     let st' := n :: st in
     do t <- (match sg_task sg with
-             | Some t => do r <- rec st' (VRef t); Ok (TASK_ID :: fst r, snd r)
+             | Some t => do r <- rec st' (VRef t); Ok (tmark st' t (fst r), snd r)
              | None => Ok ([], O)
              end);
     do r <- seq_list (hsel (rec st')) (sg_args sg);
